@@ -36,8 +36,8 @@ def defects_table():
     k = json.load(open(os.path.join(V, "known_findings.json")))
     rows = ["| commit | rule / property | what failed |", "|--------|-----------------|-------------|"]
     for e in k:
-        rows.append(f"| {e.get('commit', '-')} | {e['rule']} / {e['property']} | {e['fails'][:330].replace('|', '/')} |")
-    return "\n".join(rows), len(k)
+        rows.append(f"| {e.get('commit') or 'not repaired'} | {e['rule']} / {e['property']} | {e['fails'][:330].replace('|', '/')} |")
+    return "\n".join(rows), (sum(1 for e in k if e.get("status") == "fixed"), sum(1 for e in k if e.get("status") == "known"))
 
 
 def seeded_table():
@@ -69,7 +69,7 @@ def main():
     parts = {"rules": rules_table(), "defects": dt, "seeded": st,
              "counts": f"battery on this tree: {counts['seeded_detected']} of {counts['seeded']} seeded changes reported by the "
                        f"check of their property, {counts['twins_silent']} of {counts['twins']} twins silent; "
-                       f"{n} repaired defects recorded; expectations {'all met' if not failed else 'NOT met: ' + str(failed)}"}
+                       f"{n[0]} repaired defects and {n[1]} known finding(s) recorded; expectations {'all met' if not failed else 'NOT met: ' + str(failed)}"}
     for k, v in parts.items():
         a, b = f"<!-- GEN:{k} -->", f"<!-- /GEN:{k} -->"
         if a not in s or b not in s:
